@@ -147,6 +147,9 @@ func (h *hostGen) shape(d int) *hostShape {
 			for i := 0; i < k; i++ {
 				v, e := in.Gen(r, true) // elements must agree in type
 				out.Index(i).Set(v)
+				if e == nil {
+					return out, nil // an element without static type (empty interface container inside)
+				}
 				ev.L = append(ev.L, e)
 				elT = e.T
 			}
@@ -173,6 +176,10 @@ func (h *hostGen) shape(d int) *hostShape {
 			for i := r.Intn(4); i > 0; i-- {
 				kv, ke := ks.Gen(r, true)
 				vv, ve := in.Gen(r, true)
+				if ve == nil {
+					out.SetMapIndex(kv, vv)
+					return out, nil
+				}
 				if _, dup := ev.MapGet(ke); dup {
 					continue
 				}
